@@ -529,16 +529,19 @@ class ITerm2Image(GraphicsImage, metaclass=ITerm2ImageMeta):
     ):
         if not mix and self._TERM == "wezterm":
             lines = max(fmt[-1], self.rendered_height)
-            r_width = self.rendered_width
+            r_width, r_height = self.rendered_size
             erase_and_move_cursor = ERASE_CHARS % r_width + CURSOR_FORWARD % r_width
+            # The pseudo-render must have the height of the image itself;
+            # `_format_render()` adds the padding lines.
             first_frame = self._format_render(
-                f"{erase_and_move_cursor}\n" * (lines - 1) + erase_and_move_cursor,
+                f"{erase_and_move_cursor}\n" * (r_height - 1) + erase_and_move_cursor,
                 *fmt,
             )
             print(
                 first_frame,
                 "\r",
-                CURSOR_UP % (lines - 1),
+                # NOTE: `CURSOR_UP % 0` would move the cursor up by one line
+                ctlseqs.cursor_up(lines - 1),
                 sep="",
                 end="",
                 flush=True,
